@@ -484,6 +484,12 @@ class VNormal(V):
         if name in ("batch_shape",):
             dims, _ = E.broadcast_dims(ctx, [self.loc, self.scale])
             return VTuple([VNum(d.size) for d in dims], is_size=True)
+        if name == "cdf":
+            def cdf(it_, ctx_, a, k):
+                from . import dom_real
+                return E.pointwise(ctx_, [as_tensor(a[0]), self.loc, self.scale],
+                                   lambda x, m, s: dom_real.apply(ctx_, "Phi", dom_real.rdiv(ctx_, E.to_real(x) - E.to_real(m), E.to_real(s))), sort="real")
+            return VBuiltin("Normal.cdf", cdf)
         raise Undecided(f"Normal.{name}")
 
     def log_prob(self, it, ctx, a, k):
